@@ -3,7 +3,9 @@ package props
 import (
 	"fmt"
 	"math/rand"
+	"net/url"
 	"regexp"
+	"sort"
 	"strconv"
 	"strings"
 	"time"
@@ -227,6 +229,468 @@ func (C13) Nontrivial(ops, outs []string) bool {
 	}
 	for i := range outs {
 		if strings.Contains(outs[i], "nosession") || strings.Contains(outs[i], "badver") {
+			return true
+		}
+	}
+	return false
+}
+
+// C15: secondary indexes mirror the live records exactly; queries stay inside one index.
+type C15 struct{}
+
+func (C15) Generate(rng *rand.Rand, tier string) []core.Case {
+	cases := genDbCases(rng, tier, []string{"idx", "idx", "idx", "range"}, 250, 12000, 45)
+	// every index query is preceded by a dump so that the oracle has the reference at hand
+	for ci := range cases {
+		var ops []string
+		for _, o := range cases[ci].Ops {
+			if strings.HasPrefix(o, "idx.") {
+				ops = append(ops, "db.dump")
+			}
+			ops = append(ops, o)
+		}
+		cases[ci].Ops = ops
+	}
+	return cases
+}
+func (C15) Exec(ops []string, outs []string) { dbExecOps(ops, outs) }
+func (C15) Timeout() time.Duration          { return 60 * time.Second }
+
+type idxEntry struct{ sk, pk string }
+
+var dumpEntryRe = regexp.MustCompile(`^([0-9a-f-]+)=E\(([^)]*)\)$`)
+
+// parseDump extracts, from a canonical dump line, the declared (index, sk, pk) triples of the live
+// records and the (index, sk, pk) triples of the index keys actually stored.
+func parseDump(dump string) (declared, stored map[string][]idxEntry, records map[string]bool) {
+	declared, stored, records = map[string][]idxEntry{}, map[string][]idxEntry{}, map[string]bool{}
+	for _, tok := range strings.Fields(dump) {
+		eq := strings.Index(tok, "=")
+		if eq < 0 || strings.HasPrefix(tok, "n=") {
+			continue
+		}
+		key := string(core.UnHex(tok[:eq]))
+		val := tok[eq+1:]
+		if strings.HasPrefix(key, "__oxia/idx/") {
+			rest := key[len("__oxia/idx/"):]
+			sl := strings.Index(rest, "/")
+			if sl < 0 {
+				continue
+			}
+			name, tail := rest[:sl], rest[sl+1:]
+			sep := strings.Index(tail, "\x01")
+			if sep < 0 {
+				stored[name] = append(stored[name], idxEntry{tail, "?"})
+				continue
+			}
+			pk, err := urlPathUnescape(tail[sep+1:])
+			if err != nil {
+				pk = "?"
+			}
+			stored[name] = append(stored[name], idxEntry{tail[:sep], pk})
+			continue
+		}
+		if strings.HasPrefix(key, "__oxia/") || !strings.HasPrefix(val, "E(") {
+			continue
+		}
+		records[key] = true
+		fields := strings.Split(strings.TrimSuffix(strings.TrimPrefix(val, "E("), ")"), ",")
+		if len(fields) < 9 || fields[8] == "_" {
+			continue
+		}
+		for _, ix := range strings.Split(fields[8], ";") {
+			nk := strings.Split(ix, "=")
+			name, sk := string(core.UnHex(nk[0])), string(core.UnHex(nk[1]))
+			declared[name] = append(declared[name], idxEntry{sk, key})
+		}
+	}
+	return
+}
+
+func (C15) Oracle(ops, impl, model []string) string {
+	var declared, stored map[string][]idxEntry
+	var records map[string]bool
+	for i, o := range ops {
+		if i >= len(impl) {
+			break
+		}
+		out := impl[i]
+		f := strings.Fields(o)
+		if out == "hang" {
+			return fmt.Sprintf("op %d hangs", i)
+		}
+		switch f[0] {
+		case "db.dump":
+			if !strings.HasPrefix(out, "n=") {
+				continue
+			}
+			declared, stored, records = parseDump(out)
+			// exactness: stored index entries == declared ones (as multisets of distinct triples)
+			names := map[string]bool{}
+			for n := range declared {
+				names[n] = true
+			}
+			for n := range stored {
+				names[n] = true
+			}
+			for n := range names {
+				d, s := map[idxEntry]bool{}, map[idxEntry]bool{}
+				for _, e := range declared[n] {
+					d[e] = true
+				}
+				for _, e := range stored[n] {
+					s[e] = true
+				}
+				for e := range d {
+					if !s[e] && e.sk != "" && !strings.Contains(e.sk, "\x01") {
+						return fmt.Sprintf("op %d: record %q declares (%q -> %q) but index %q has no such entry", i, e.pk, e.sk, e.pk, n)
+					}
+				}
+				for e := range s {
+					if !d[e] {
+						return fmt.Sprintf("op %d: index %q holds a stale entry (%q -> %q) that no live record declares", i, n, e.sk, e.pk)
+					}
+				}
+			}
+		case "idx.get":
+			if stored == nil {
+				continue
+			}
+			if out == "panic" {
+				return fmt.Sprintf("op %d: index get panics", i)
+			}
+			name, cmpT, key := string(core.UnHex(f[1])), f[2], core.UnHex(f[3])
+			sat := func(sk string) bool {
+				c := compare.CompareWithSlash([]byte(sk), key)
+				switch cmpT {
+				case "eq":
+					return c == 0
+				case "floor":
+					return c <= 0
+				case "ceil":
+					return c >= 0
+				case "lower":
+					return c < 0
+				default:
+					return c > 0
+				}
+			}
+			any := false
+			for _, e := range stored[name] {
+				if sat(e.sk) && records[e.pk] {
+					any = true
+				}
+			}
+			if strings.HasPrefix(out, "found(") {
+				var pkh, skh string
+				fmt.Sscanf(strings.NewReplacer("found(pk=", "", ",sk=", " ", ")", " ").Replace(strings.Fields(out)[0]), "%s %s", &pkh, &skh)
+				pk, sk := string(core.UnHex(pkh)), ""
+				if skh != "_" {
+					sk = string(core.UnHex(skh))
+				}
+				in := false
+				for _, e := range stored[name] {
+					if e.pk == pk && e.sk == sk {
+						in = true
+					}
+				}
+				if !in {
+					return fmt.Sprintf("op %d: %s get of %q on index %q returned record %q (secondary key %q), which is not an entry of that index", i, cmpT, key, name, pk, sk)
+				}
+				if !sat(sk) {
+					return fmt.Sprintf("op %d: %s get of %q on index %q returned secondary key %q", i, cmpT, key, name, sk)
+				}
+				// best match: no entry strictly between
+				for _, e := range stored[name] {
+					if !sat(e.sk) {
+						continue
+					}
+					c := compare.CompareWithSlash([]byte(e.sk), []byte(sk))
+					if (cmpT == "floor" || cmpT == "lower") && c > 0 || (cmpT == "ceil" || cmpT == "higher") && c < 0 {
+						return fmt.Sprintf("op %d: %s get of %q on index %q returned %q although %q is closer", i, cmpT, key, name, sk, e.sk)
+					}
+				}
+			} else if out == "notfound" && any {
+				return fmt.Sprintf("op %d: %s get of %q on index %q found nothing although the index has a matching entry", i, cmpT, key, name)
+			}
+		case "idx.list":
+			if out == "panic" {
+				return fmt.Sprintf("op %d: index list panics (unparsable index key)", i)
+			}
+		}
+	}
+	return ""
+}
+
+func (C15) Nontrivial(ops, outs []string) bool {
+	// non-trivial: at least two indexes in use and an index query that found a record
+	found := false
+	for i := range outs {
+		if strings.HasPrefix(outs[i], "found(") {
+			found = true
+		}
+	}
+	return found
+}
+
+func urlPathUnescape(s string) (string, error) { return url.PathUnescape(s) }
+
+// C16: sequence keys are fresh, strictly increasing and computed exactly.
+type C16 struct{}
+
+func (C16) Generate(rng *rand.Rand, tier string) []core.Case {
+	return genDbCases(rng, tier, []string{"seq"}, 250, 12000, 45)
+}
+func (C16) Exec(ops []string, outs []string) { dbExecOps(ops, outs) }
+func (C16) Timeout() time.Duration          { return 60 * time.Second }
+
+var seqSuffixRe = regexp.MustCompile(`^(-\d{20})+$`)
+
+func (C16) Oracle(ops, impl, model []string) string {
+	live := map[string]bool{}      // keys currently in the store (user keys)
+	maxGen := map[string]string{}  // per prefix: greatest generated key so far
+	for i, o := range ops {
+		if i >= len(impl) {
+			break
+		}
+		out := impl[i]
+		f := strings.Fields(o)
+		if out == "panic" || out == "hang" {
+			return fmt.Sprintf("op %d: %s", i, out)
+		}
+		if f[0] == "db.new" {
+			live, maxGen = map[string]bool{}, map[string]string{}
+			continue
+		}
+		if f[0] != "db.write" {
+			continue
+		}
+		puts, dels, _, ok := splitResp(out)
+		if !ok {
+			continue
+		}
+		pi, di := 0, 0
+		for _, t := range f[1:] {
+			p := strings.Split(t, ":")
+			switch p[0] {
+			case "P":
+				r := puts[pi]
+				pi++
+				m := putOkRe.FindStringSubmatch(r)
+				if m == nil {
+					continue
+				}
+				key := string(core.UnHex(p[1]))
+				if p[7] == "_" {
+					live[key] = true
+					continue
+				}
+				gen := string(core.UnHex(m[3]))
+				// classify the circumstances that are recorded as known findings
+				label := ""
+				for k := range live {
+					if strings.HasPrefix(k, key+"-") && !seqSuffixRe.MatchString(k[len(key):]) {
+						label = " (a foreign key lives under the sequence prefix)"
+					}
+				}
+				wrap := false
+				for _, d := range strings.Split(p[7], ",") {
+					if dv, _ := strconv.ParseUint(d, 10, 64); dv >= 1<<62 {
+						wrap = true
+					}
+				}
+				for k := range live {
+					if strings.HasPrefix(k, key+"-") && seqSuffixRe.MatchString(k[len(key):]) {
+						for _, part := range strings.Split(k[len(key)+1:], "-") {
+							if pv, _ := strconv.ParseUint(part, 10, 64); pv >= 1<<62 {
+								wrap = true
+							}
+						}
+					}
+				}
+				if wrap {
+					label += " (uint64 wrap-around of suffix + delta)"
+				}
+				if !strings.HasPrefix(gen, key+"-") || !seqSuffixRe.MatchString(gen[len(key):]) {
+					return fmt.Sprintf("op %d: sequence put on %q generated %q, not prefix + numeric suffixes", i, key, gen)
+				}
+				if strings.Count(gen[len(key):], "-") != strings.Count(p[7], ",")+1 {
+					return fmt.Sprintf("op %d: sequence put on %q with deltas %s generated %q: wrong number of suffixes", i, key, p[7], gen)
+				}
+				if live[gen] {
+					return fmt.Sprintf("op %d: sequence put on %q overwrote the existing record %q%s", i, key, gen, label)
+				}
+				for k := range live {
+					if strings.HasPrefix(k, key+"-") && seqSuffixRe.MatchString(k[len(key):]) && compare.CompareWithSlash([]byte(k), []byte(gen)) >= 0 {
+						return fmt.Sprintf("op %d: sequence put on %q generated %q, which is not greater than the existing key %q%s", i, key, gen, k, label)
+					}
+				}
+				if prev, ok := maxGen[key]; ok && live[prev] && compare.CompareWithSlash([]byte(prev), []byte(gen)) >= 0 {
+					return fmt.Sprintf("op %d: sequence put on %q generated %q after %q%s", i, key, gen, prev, label)
+				}
+				maxGen[key] = gen
+				live[gen] = true
+			case "D":
+				if dels[di] == "ok" {
+					delete(live, string(core.UnHex(p[1])))
+				}
+				di++
+			case "R":
+				a, b := core.UnHex(p[1]), core.UnHex(p[2])
+				for k := range live {
+					if compare.CompareWithSlash(a, []byte(k)) <= 0 && compare.CompareWithSlash([]byte(k), b) < 0 {
+						delete(live, k)
+					}
+				}
+			}
+		}
+	}
+	return ""
+}
+
+func (C16) Nontrivial(ops, outs []string) bool {
+	// non-trivial: at least two generated keys, one of them with more than one suffix
+	n, multi := 0, false
+	for i := range outs {
+		if strings.Contains(outs[i], ",k=7") || strings.Contains(outs[i], ",k=2f") {
+			n++
+		}
+		if strings.Contains(outs[i], "2d3030303030303030303030303030303030303030") {
+			multi = true
+		}
+	}
+	return n >= 2 || multi
+}
+
+// C17: notification batches: one per committed request, exact content, ordered, resumable.
+type C17 struct{}
+
+func (C17) Generate(rng *rand.Rand, tier string) []core.Case {
+	cases := genDbCases(rng, tier, []string{"notif", "notif", "mix", "range"}, 250, 12000, 45)
+	// subscribers (re)connect at every offset at the end of each program
+	for ci := range cases {
+		n := 0
+		for _, o := range cases[ci].Ops {
+			if strings.HasPrefix(o, "db.write") {
+				n++
+			}
+		}
+		if !strings.Contains(cases[ci].Ops[0], "notif=0") {
+			for s := 0; s <= n+1; s += 1 + n/12 {
+				cases[ci].Ops = append(cases[ci].Ops, fmt.Sprintf("db.notifs %d", s))
+			}
+		}
+	}
+	return cases
+}
+func (C17) Exec(ops []string, outs []string) { dbExecOps(ops, outs) }
+func (C17) Timeout() time.Duration          { return 60 * time.Second }
+
+// Oracle: what each committed request must announce is recomputed in Go from the request and its
+// response; every read must return exactly the batches with offset >= start, ascending.
+func (C17) Oracle(ops, impl, model []string) string {
+	type batch struct {
+		off    int64
+		expect string
+	}
+	var batches []batch
+	enabled := true
+	for i, o := range ops {
+		if i >= len(impl) {
+			break
+		}
+		out := impl[i]
+		f := strings.Fields(o)
+		if out == "panic" || out == "hang" {
+			return fmt.Sprintf("op %d: %s", i, out)
+		}
+		switch f[0] {
+		case "db.new":
+			batches = nil
+			enabled = !strings.Contains(o, "notif=0")
+		case "db.write":
+			puts, dels, _, ok := splitResp(out)
+			if !ok {
+				continue
+			}
+			var off int64
+			var ts uint64
+			ns := map[string]string{}
+			pi, di := 0, 0
+			for _, t := range f[1:] {
+				switch {
+				case strings.HasPrefix(t, "off="):
+					off, _ = strconv.ParseInt(t[4:], 10, 64)
+				case strings.HasPrefix(t, "ts="):
+					ts, _ = strconv.ParseUint(t[3:], 10, 64)
+				case strings.HasPrefix(t, "P:"):
+					p := strings.Split(t, ":")
+					m := putOkRe.FindStringSubmatch(puts[pi])
+					pi++
+					if m == nil {
+						continue
+					}
+					key := p[1]
+					if m[3] != "_" {
+						key = m[3]
+					}
+					typ := "C"
+					if m[2] != "0" {
+						typ = "M"
+					}
+					if !strings.HasPrefix(string(core.UnHex(key)), "__oxia/") {
+						ns[key] = fmt.Sprintf("%s/%s/%s/_", key, typ, m[1])
+					}
+				case strings.HasPrefix(t, "D:"):
+					p := strings.Split(t, ":")
+					if dels[di] == "ok" && !strings.HasPrefix(string(core.UnHex(p[1])), "__oxia/") {
+						ns[p[1]] = fmt.Sprintf("%s/D/_/_", p[1])
+					}
+					di++
+				case strings.HasPrefix(t, "R:"):
+					p := strings.Split(t, ":")
+					if !strings.HasPrefix(string(core.UnHex(p[1])), "__oxia/") {
+						ns[p[1]] = fmt.Sprintf("%s/R/_/%s", p[1], p[2])
+					}
+				}
+			}
+			if !enabled {
+				continue
+			}
+			keys := make([]string, 0, len(ns))
+			for k := range ns {
+				keys = append(keys, string(core.UnHex(k)))
+			}
+			sort.Strings(keys)
+			parts := make([]string, len(keys))
+			for j, k := range keys {
+				parts[j] = ns[core.Hex([]byte(k))]
+			}
+			batches = append(batches, batch{off, fmt.Sprintf("N(%d,%d,[%s])", off, ts, strings.Join(parts, ","))})
+		case "db.notifs":
+			if !enabled {
+				continue
+			}
+			start, _ := strconv.ParseInt(f[1], 10, 64)
+			var want []string
+			for _, b := range batches {
+				if b.off >= start {
+					want = append(want, b.expect)
+				}
+			}
+			exp := fmt.Sprintf("n=%d %s", len(want), strings.Join(want, " "))
+			if strings.TrimSpace(out) != strings.TrimSpace(exp) {
+				return fmt.Sprintf("op %d: subscriber starting at offset %d received %.300s ; the committed requests announce %.300s", i, start, out, exp)
+			}
+		}
+	}
+	return ""
+}
+
+func (C17) Nontrivial(ops, outs []string) bool {
+	// non-trivial: a read that returned at least two batches, one of them non-empty
+	for i, o := range ops {
+		if i < len(outs) && strings.HasPrefix(o, "db.notifs") && !strings.HasPrefix(outs[i], "n=0") && !strings.HasPrefix(outs[i], "n=1 ") && strings.Contains(outs[i], "/C/") {
 			return true
 		}
 	}
